@@ -482,7 +482,9 @@ def run_case(case):
         import traceback
         tb = traceback.format_exc()
         out["model"].append(f"case crashed: {e!r} :: {tb[-1500:]}")
-        frames = [ln for ln in tb.splitlines() if ln.strip().startswith("File ")]
+        # the innermost frame that belongs to the program or to the harness (frames of libraries the
+        # program called, e.g. numpy's Generator.choice, do not count)
+        frames = [ln for ln in tb.splitlines() if ln.strip().startswith("File ") and ("/infretis/" in ln or "/verif/py" in ln)]
         if frames and "/infretis/" in frames[-1] and "StopRun" not in repr(e):
             # the program itself died in the middle of a run: the sampler stalled
             out["C05"].append(f"the run died inside the program with {e!r} ({frames[-1].strip()[:160]})")
